@@ -15,6 +15,26 @@ CLAIMED = {
    design="§7 C15", technique="contract-based deductive verification (WP over go/ssa, SMT)"),
 }
 
+CLAIMED.update({
+ "C06": dict(
+   text="Deductive proof that the three implementations of checker selection (cmd/go-critic and cmd/gocritic initCheckers, analyzer filterCheckersList, "
+        "with their closures parseKeys / splitValues / enabledByTag / disabledByTag) compute exactly the set given by the property's formula "
+        "(enable-all or name/tag listed in enable, and neither name nor tag listed in disable), keep registry order, never construct an unselected checker, "
+        "return an error for an empty selection, and do not write their inputs. Unbounded lists, tags and strings; loop invariants are proved. "
+        "The documentation clause (README/overview tables) is not decided.",
+   design="§7 C06", technique="contract-based deductive verification (loop invariants, quantified postconditions, frames; SMT)"),
+ "C16": dict(
+   text="Deductive proof of the command-line helpers: exit() exits with the configured code iff issues were found, addTrailingSlash, and shortenLocation "
+        "(the printed location expands back to the real path for all clean absolute paths and roots; native SMT string theory). "
+        "A defect in shortenLocation was found by a solver model, replayed on the real code and fixed.",
+   design="§7 C16", technique="contract-based deductive verification (SMT strings), model replay via go test -overlay"),
+ "C19": dict(
+   text="Deductive proof that configuration errors fail cleanly: ParseGoVersion accepts exactly the valid strings, SetGoVersion is only called with a parsable "
+        "version (CLI loadProgram), the analyzer never dereferences a missing configuration for any state of its init-error latch, createCheckers and "
+        "initCheckers never return a partially initialised checker set. Two panics were found, demonstrated on the real code and fixed.",
+   design="§7 C19", technique="contract-based deductive verification (call-site preconditions, nil-safety obligations; SMT)"),
+})
+
 NA_REASON_PENDING = "check not built yet in this round (planned, DESIGN §7); not claimed until its obligations discharge"
 NOT_APPLICABLE = {
  "C11": "no contract within reach can state equality of Go-regexp match behaviour between a pattern and the string printed from a third-party parse tree (DESIGN §8)",
